@@ -40,7 +40,7 @@ SIGNIFICANT = set("'\"\\$`!@#&;|<>(){}[]*?~\n\t ")
 
 @st.composite
 def explicit_case(draw):
-    method = draw(st.sampled_from(["GET", "POST", "PUT", "DELETE", "PATCH"]))
+    method = draw(st.sampled_from(["GET", "POST", "PUT", "DELETE", "PATCH", "HEAD", "OPTIONS"]))
     c = {"method": method, "path_parameters": {"id": draw(PATHV)}}
     if draw(st.booleans()):
         c["query"] = {"q": draw(SHELLY)}
@@ -77,7 +77,7 @@ def _schema(url, sanitize=False):
     if _state.get("url") != (url, sanitize):
         params = [{"name": "q", "in": "query", "schema": {"type": "string"}}, {"name": "id", "in": "path", "required": True, "schema": {"type": "string"}}, {"name": "X-H", "in": "header", "schema": {"type": "string"}}, {"name": "ck", "in": "cookie", "schema": {"type": "string"}}]
         body = {"content": {"application/json": {"schema": {}}, "text/plain": {"schema": {"type": "string"}}, "application/x-www-form-urlencoded": {"schema": {"type": "object"}}, "multipart/form-data": {"schema": {"type": "object", "properties": {"a": {"type": "string"}, "b": {"type": "string"}, "file": {"type": "string"}}}}}}
-        doc = {"openapi": "3.0.2", "info": {"title": "t", "version": "1"}, "paths": {"/u/{id}": {m: {"parameters": params, **({"requestBody": body} if m != "get" else {}), "responses": {"200": {"description": "ok"}}} for m in ("get", "post", "put", "delete", "patch")}}}
+        doc = {"openapi": "3.0.2", "info": {"title": "t", "version": "1"}, "paths": {"/u/{id}": {m: {"parameters": params, **({"requestBody": body} if m != "get" else {}), "responses": {"200": {"description": "ok"}}} for m in ("get", "post", "put", "delete", "patch", "head", "options")}}}
         _state["schema"] = schemathesis.openapi.from_dict(doc).configure(base_url=url, output=OutputConfig(sanitize=sanitize))
         _state["url"] = (url, sanitize)
     return _state["schema"]
@@ -124,7 +124,8 @@ def compare(ctx: Ctx, original, replayed, explicit_ct, inp, command, route):
 def check_explicit(ctx: Ctx, inp) -> None:
     from vfw.harness import loopback
 
-    server = loopback.shared()
+    # (an empty answer, so that `curl -X HEAD` has no announced body to wait for)
+    server = loopback.shared(lambda req, ordinal: loopback.Reply(body=b""))
     userinfo = inp.get("userinfo")
     schema = _schema(server.url.replace("http://", f"http://{userinfo}@") if userinfo else server.url, sanitize=bool(userinfo))
     op = schema["/u/{id}"][inp["method"]]
